@@ -1,6 +1,7 @@
 SPECIFICATION MCSpec
 CONSTANTS WalkEvery = 100000
           HeavyEvery = 61
+          DayEdges = FALSE
 INVARIANTS Century CivilAgrees InverseAgrees WeekdayAgrees EndOfCentury UnitsNested TextsNameInstant FormatRoundTrip RequiredExact
 PROPERTIES Monotone
 CHECK_DEADLOCK FALSE
